@@ -7,6 +7,8 @@ from . import _rfc as R
 from . import _jgen as G
 
 LEVEL = "proof"
+# C functions this check's models mirror (source-text fingerprints are recorded in the evidence, see translate/funchash.py)
+MODELLED_FUNCS = {'src/json/iwjson.c': ['_jbl_merge_patch_node', 'jbn_merge_patch', 'jbn_merge_patch_from_json', 'jbl_merge_patch', 'jbl_merge_patch_jbl', 'jbn_merge_patch_path']}
 MANIFEST = dict(
     level="proof",
     text=("Lean 4 theorems over an executable model of iowow's JSON Merge Patch (the recursive member walk of "
